@@ -22,11 +22,11 @@ JOBS = int(os.environ.get("C17_JOBS", "8"))
 # ------------------------------------------------------------------ modes
 class Mode:
     def __init__(self, name, flags, dec=False, keep=False, force=False, stdout=False, nosync=False, files=False,
-                 nf=1, pre=None, threads=1, inputs=None, sparse=False, big=False, kinds=None):
+                 nf=1, pre=None, threads=1, inputs=None, sparse=False, big=False, kinds=None, sfx=".xz"):
         self.name = name; self.flags = flags; self.dec = dec; self.keep = keep; self.force = force
         self.stdout = stdout; self.nosync = nosync; self.files = files; self.nf = nf
         self.pre = pre or [False] * nf; self.threads = threads
-        self.inputs = inputs or ["good"] * nf; self.sparse = sparse; self.big = big
+        self.inputs = inputs or ["good"] * nf; self.sparse = sparse; self.big = big; self.sfx = sfx
         # plaintext shape per file: "plain" | "big" | "sparse" | "holefirst" | "zerotrunc"
         self.kinds = kinds or [("sparse" if sparse else "big" if big else "plain")] * nf
 
@@ -54,7 +54,18 @@ def modes(quick):
          # the SECOND must come out complete, byte for byte
          Mode("d-2f-holefirst", ["-d"], dec=True, nf=2, kinds=["holefirst", "plain"]),
          Mode("d-2f-zerotrunc", ["-d"], dec=True, nf=2, inputs=["corrupt", "good"], kinds=["zerotrunc", "plain"]),
-         Mode("d-list-holefirst", ["-d"], dec=True, nf=2, files=True, kinds=["holefirst", "sparse"])]
+         Mode("d-list-holefirst", ["-d"], dec=True, nf=2, files=True, kinds=["holefirst", "sparse"]),
+         # verbosity is not allowed to change the exit status or what happens to the files
+         Mode("d-corrupt-qq", ["-dqq"], dec=True, inputs=["corrupt"], big=True),
+         Mode("c-exists-qq", ["-qq"], pre=[True]),
+         Mode("c-qq", ["-qq"]),
+         Mode("c-q", ["-q"]),
+         Mode("d-2f-zerotrunc-q", ["-dq"], dec=True, nf=2, inputs=["corrupt", "good"], kinds=["zerotrunc", "plain"]),
+         # .lzma (no integrity check, no footer): the stream ends exactly at / next to the 8192-byte read
+         # boundary; trailing garbage must make xz fail and keep the source (the one-more-byte read)
+         Mode("d-lzma-garbage-at-8192", ["-d"], dec=True, inputs=["corrupt"], kinds=["lzma8192+garbage"], sfx=".lzma"),
+         Mode("d-lzma-garbage-at-8191", ["-d"], dec=True, inputs=["corrupt"], kinds=["lzma8191+garbage"], sfx=".lzma"),
+         Mode("d-lzma-exact-8192", ["-d"], dec=True, kinds=["lzma8192"], sfx=".lzma")]
     if not quick:
         # the same modes with the other coder (-T1: single-threaded encoder / direct decoder path; -T4: threaded)
         import copy
@@ -83,9 +94,26 @@ def content(mode, i, seed):
         return bytes(65536) + blk(30000)
     if kind == "zerotrunc":     # only zeros: everything decoded is a pending hole when the input ends too early
         return bytes(1 << 20)
+    if kind.startswith("lzma"):
+        return b""
     n = 70000 if kind == "big" else 3000 + 500 * i
     # half compressible
     return blk(n // 2) + bytes(r.randrange(3) for _ in range(n - n // 2))
+
+def lzma_alone_of_size(want, seed):
+    """A .lzma file (known uncompressed size, no end marker) of exactly `want` bytes, and its plaintext."""
+    import random, struct
+    r = random.Random(seed)
+    base = bytes(r.getrandbits(8) for _ in range(want + 200))
+    filt = [{"id": lzma.FILTER_LZMA1, "preset": 1}]
+    for n in list(range(want - 135, want + 60)) + list(range(want - 500, want - 135)):
+        for tail in range(0, 40, 3):
+            plain = base[:n] + bytes(tail)
+            x = lzma.compress(plain, format=lzma.FORMAT_ALONE, filters=filt)
+            # python writes "size unknown" + end marker; keep that form (xz accepts both)
+            if len(x) == want:
+                return x, plain
+    raise MachineryError("could not build a .lzma file of %d bytes" % want)
 
 def make_inputs(mode, seed):
     """Returns (list of source bytes, list of expected output bytes or None)."""
@@ -96,6 +124,14 @@ def make_inputs(mode, seed):
             srcs.append(plain); outs.append(None)       # expected output taken from the verified baseline
             continue
         kind = mode.inputs[i]
+        if mode.kinds[i].startswith("lzma"):
+            want = int(mode.kinds[i][4:8])
+            x, plain = lzma_alone_of_size(want, "s")     # fixed content: the size search is expensive
+            if mode.kinds[i].endswith("+garbage"):
+                srcs.append(x + b"trailing bytes that are not part of the stream"); outs.append(None)
+            else:
+                srcs.append(x); outs.append(plain)
+            continue
         x = lzma.compress(plain, format=lzma.FORMAT_XZ, preset=1)
         if kind == "good":
             srcs.append(x); outs.append(plain)
@@ -109,7 +145,7 @@ def make_inputs(mode, seed):
     return srcs, outs
 
 def names(mode):
-    sfx = ".xz"
+    sfx = mode.sfx
     srcs = ["d/f%d%s" % (i + 1, sfx if mode.dec else "") for i in range(mode.nf)]
     dsts = ["d/f%d%s" % (i + 1, "" if mode.dec else sfx) for i in range(mode.nf)]
     return srcs, dsts
@@ -481,6 +517,8 @@ def run_v(ctx):
         ev, pr = events_of(Case(mode), base, sizes, outs if mode.dec else None)
         level = 2 if not ctx.quick else (1 if mode.name in ("c", "d-sparse-T4", "c-force-pre", "c-2files", "d-files-list", "d-2f-holefirst",
                                                               "d-2f-zerotrunc") else 0)
+        if ctx.quick and (mode.name.endswith(("-qq", "-q")) or "lzma" in mode.name):
+            level = 0
         cases = perturbations(mode, pr["calls"], ctx.rng, level)
         ctx.log("mode %-14s baseline: rc=%s events=%d fs=%s -> %d perturbed runs" %
                 (mode.name, base["rc"], len(ev), base["fs"], len(cases)))
